@@ -30,7 +30,7 @@ from dashlive.utils.objects import flatten
 from .base import HTMLHandlerBase, DeleteModelBase, TemplateContext
 from .csrf import CsrfTokenCollection
 from .decorators import login_required, uses_stream, current_stream
-from .exceptions import CsrfFailureException
+from .exceptions import CsrfFailureException, ManifestNotAvailable
 from .manifest_context import ManifestContext
 from .utils import is_ajax, jsonify
 
@@ -270,16 +270,27 @@ class EditStream(HTMLHandlerBase):
         options.audioCodec = 'any'
         options.textCodec = None
         options.drmSelection = []
-        mc = ManifestContext(
-            options=options, stream=current_stream, multi_period=None,
-            manifest=default_manifest)
-        clear_adaptation_sets = [mc.video] + mc.audio_sets + mc.text_sets
+        # the page is still shown when no manifest can be produced for the
+        # stream (e.g. a key has been deleted), just without the summary of
+        # its adaptation sets
+        clear_adaptation_sets = []
+        enc_adaptation_sets = []
+        try:
+            mc = ManifestContext(
+                options=options, stream=current_stream, multi_period=None,
+                manifest=default_manifest)
+            clear_adaptation_sets = [mc.video] + mc.audio_sets + mc.text_sets
+        except ManifestNotAvailable as err:
+            logging.info('No clear adaptation sets: %s', err)
         drmSelection = DrmSelection.from_string(','.join(DrmSystem.values()))
         enc_options = options.clone(drmSelection=drmSelection)
-        mc = ManifestContext(
-            options=enc_options, stream=current_stream, multi_period=None,
-            manifest=default_manifest)
-        enc_adaptation_sets = [mc.video] + mc.audio_sets + mc.text_sets
+        try:
+            mc = ManifestContext(
+                options=enc_options, stream=current_stream, multi_period=None,
+                manifest=default_manifest)
+            enc_adaptation_sets = [mc.video] + mc.audio_sets + mc.text_sets
+        except ManifestNotAvailable as err:
+            logging.info('No encrypted adaptation sets: %s', err)
         if 'fragment' in flask.request.args:
             layout = 'fragment.html'
         else:
@@ -317,16 +328,20 @@ class EditStream(HTMLHandlerBase):
         except (CsrfFailureException) as cfe:
             logging.debug("csrf check failed")
             logging.debug(cfe)
-            context = self.create_context(current_stream.title, False)
-            context['error'] = "csrf check failed"
-            context['csrf_tokens'] = CsrfTokenCollection(
-                files=self.generate_csrf_token('files', context['csrf_key']),
-                kids=self.generate_csrf_token('keys', context['csrf_key']),
-                streams=context['csrf_token'],
-                upload=None)
-            return flask.render_template('media/stream.html', **context)
+            # the stream page can not be rendered from here (its template
+            # needs the adaptation set summary that get() produces)
+            if is_ajax():
+                return jsonify({'error': 'csrf check failed'}, 401)
+            flask.flash('CSRF error: csrf check failed', 'error')
+            return flask.redirect(
+                flask.url_for('view-stream', spk=current_stream.pk))
+        for name in ['title', 'marlin_la_url', 'playready_la_url']:
+            if not isinstance(params.get(name), str):
+                return flask.make_response(f'Field "{name}" is missing', 400)
         current_stream.title = params['title']
         if models.MediaFile.count(stream=current_stream) == 0:
+            if not isinstance(params.get('directory'), str):
+                return flask.make_response('Field "directory" is missing', 400)
             current_stream.directory = params['directory']
         current_stream.marlin_la_url = str_or_none(params['marlin_la_url'])
         current_stream.playready_la_url = str_or_none(params['playready_la_url'])
@@ -519,7 +534,15 @@ class EditStreamDefaults(HTMLHandlerBase):
             drms.append(f'{name}-{loc}')
         form['drm'] = ','.join(drms)
         form['events'] = ','.join(flask.request.form.getlist('events'))
-        opts = OptionsRepository.convert_cgi_options(form, defaults=defaults)
+        try:
+            opts = OptionsRepository.convert_cgi_options(form, defaults=defaults)
+            self.check_option_values(opts)
+        except ValueError as err:
+            logging.info('Invalid stream defaults: %s', err)
+            if is_ajax():
+                return jsonify({'error': f'{err}'}, 400)
+            flask.flash(f'Invalid value: {err}', 'error')
+            return flask.make_response(self.get(spk), 400)
         current_stream.defaults = flatten(opts.remove_default_values(defaults))
         models.db.session.commit()
         flask.flash('Saved stream defaults', 'success')
